@@ -106,5 +106,11 @@ Definition known_class (c : pcase) : option Z :=
   | Some _ => None
   end.
 
-Definition verdict (c : pcase) : Z := verdict_of (spec c) (model c) (known_class c) (pc_obs c).
+(* a proto outside the property's quantifier (payload in two places at once, values outside the carrier's
+   range) has no prescribed value -- but "never by crashing" holds for it as for any other *)
+Definition verdict (c : pcase) : Z :=
+  match spec c, pc_obs c with
+  | SOutOfDomain, OPanic => 2
+  | _, _ => verdict_of (spec c) (model c) (known_class c) (pc_obs c)
+  end.
 Definition kind (c : pcase) : Z := spec_kind (spec c).
